@@ -183,6 +183,14 @@ impl Expr {
         result
     }
 
+    /// Does the expression call a function that looks at the file itself (`contains('x')`)?
+    pub fn reads_entry(&self) -> bool {
+        self.function.as_ref().is_some_and(|function| function.reads_entry())
+            || self.left.as_ref().is_some_and(|left| left.reads_entry())
+            || self.right.as_ref().is_some_and(|right| right.reads_entry())
+            || self.args.as_ref().is_some_and(|args| args.iter().any(|arg| arg.reads_entry()))
+    }
+
     pub fn contains_numeric(&self) -> bool {
         Self::contains_numeric_field(self)
     }
@@ -211,6 +219,11 @@ impl Expr {
             return true;
         }
 
+        // the value of any other function is text, whatever it is computed from (`hex(size)`)
+        if expr.function.is_some() {
+            return false;
+        }
+
         match expr.left {
             Some(ref left) => Self::contains_numeric_field(left),
             None => false,
@@ -229,6 +242,11 @@ impl Expr {
 
         if field {
             return true;
+        }
+
+        // a function of a date (`dow(modified)`, `substr(modified, 1, 4)`) is not a date
+        if expr.function.is_some() {
+            return false;
         }
 
         match expr.left {
